@@ -875,25 +875,55 @@ namespace OFCore.Bld
 end OFCore.Bld
 namespace OFCore
 open Bld in
-/-- more refusals of `checkSetValue`: an integer that does not fit a C `long` (numpy's
-`OverflowError`, "too large") for an integer, date or enum variable, and a `datetime.date` given
-for a number or an enum.  (Between the `int32` and the `long` ranges numpy wraps silently: the
-model does the same, `wrap32`; see the report.) -/
+/-- more refusals of `checkSetValue` (repair C12n): for an integer variable an integer or a float
+outside the `int32` range is a situation error, and inside it the integer is placed exactly (a
+float is truncated); for an enum an integer or a float outside the `int16` range of the index is a
+situation error; a date variable refuses an integer that does not fit a C `long`; a
+`datetime.date` is refused for a number or an enum and accepted for a date. -/
 theorem C12_refuses_value_range (var : Var) :
-    (∀ i : Int, inInt64 i = false → var.vtype = .int ∨ var.vtype = .date ∨ (∃ n, var.vtype = .enum n) →
+    (∀ i : Int, var.vtype = .int →
+      checkSetValue var (.int i) = if -2147483648 ≤ i ∧ i ≤ 2147483647 then .ok (.int i) else .error .situation) ∧
+    (∀ r : Rat, var.vtype = .int →
+      checkSetValue var (.num r) =
+        if (-2147483648 : Rat) ≤ r ∧ r ≤ 2147483647 then .ok (.int (truncR r)) else .error .situation) ∧
+    (∀ (n : List String) (i : Int), var.vtype = .enum n → ¬ (-32768 ≤ i ∧ i ≤ 32767) →
       checkSetValue var (.int i) = .error .situation) ∧
-    (∀ r : Rat, inInt64 (truncR r) = false → var.vtype = .int ∨ (∃ n, var.vtype = .enum n) →
+    (∀ (n : List String) (r : Rat), var.vtype = .enum n → ¬ ((-32768 : Rat) ≤ r ∧ r ≤ 32767) →
       checkSetValue var (.num r) = .error .situation) ∧
+    (∀ i : Int, var.vtype = .date → inInt64 i = false → checkSetValue var (.int i) = .error .situation) ∧
     (∀ o : Int, var.vtype = .float ∨ var.vtype = .int ∨ (∃ n, var.vtype = .enum n) →
       checkSetValue var (.date o) = .error .situation) ∧
     (∀ o : Int, var.vtype = .date → checkSetValue var (.date o) = .ok (.date o)) := by
-  refine ⟨?_, ?_, ?_, ?_⟩
-  · intro i hi hv
+  have hcast : ∀ (lo hi i : Int), ratIn lo hi (i : Rat) = decide (lo ≤ i ∧ i ≤ hi) := by
+    intro lo hi i
+    unfold ratIn
+    simp only [Rat.intCast_le_intCast]
+  refine ⟨?_, ?_, ?_, ?_, ?_, ?_, ?_⟩
+  · intro i hv
     unfold checkSetValue
-    rcases hv with h | h | ⟨n, h⟩ <;> rw [h] <;> simp [hi]
-  · intro r hr hv
+    rw [hv]
+    simp only [ratInInt32, hcast]
+    by_cases h : -2147483648 ≤ i ∧ i ≤ 2147483647 <;> simp [h]
+  · intro r hv
     unfold checkSetValue
-    rcases hv with h | ⟨n, h⟩ <;> rw [h] <;> simp [hr]
+    rw [hv]
+    simp only [ratInInt32, ratIn]
+    by_cases h : (-2147483648 : Rat) ≤ r ∧ r ≤ 2147483647
+    · simp [h]
+    · simp [h]
+  · intro n i hv hi
+    unfold checkSetValue
+    rw [hv]
+    simp only [ratInInt16, hcast]
+    simp [hi]
+  · intro n r hv hr
+    unfold checkSetValue
+    rw [hv]
+    simp only [ratInInt16, ratIn]
+    simp [hr]
+  · intro i hv hi
+    unfold checkSetValue
+    rw [hv]; simp [hi]
   · intro o hv
     unfold checkSetValue
     rcases hv with h | h | ⟨n, h⟩ <;> rw [h]
@@ -1081,7 +1111,10 @@ example : checkSetValue exSalary (.str "abc") = .error .situation ∧ checkSetVa
     checkSetValue exSalary (.str "2018-01-01") = .error .situation ∧ checkSetValue exSalary (.str "2*3+1.5") = .ok (.num (15/2)) := by
   decide +kernel
 example : checkSetValue ⟨"age", "person", .int, .month, .int 0, .absent⟩ (.int 9223372036854775808) = .error .situation ∧
-    checkSetValue ⟨"age", "person", .int, .month, .int 0, .absent⟩ (.int 2147483648) = .ok (.int (-2147483648)) ∧
+    checkSetValue ⟨"age", "person", .int, .month, .int 0, .absent⟩ (.int 2147483648) = .error .situation ∧
+    checkSetValue ⟨"age", "person", .int, .month, .int 0, .absent⟩ (.int (-2147483648)) = .ok (.int (-2147483648)) ∧
+    checkSetValue ⟨"age", "person", .int, .month, .int 0, .absent⟩ (.num (2147483647 + 1/2)) = .error .situation ∧
+    checkSetValue exStatus (.int 32768) = .error .situation ∧ checkSetValue exStatus (.int 1) = .ok (.enum 1) ∧
     checkSetValue exSalary (.date 722848) = .error .situation := by decide +kernel
 example : (parseKey (.s "2018-13")).toOption = none ∧ (parseKey (.s "month:2018")).toOption = none ∧
     (parseKey (.s "abc")).toOption = none := by decide +kernel
